@@ -491,7 +491,7 @@ func (l *Loader) SetServerConfig(serverMAC net.HardwareAddr, serverIP net.IP, if
 	if len(serverMAC) >= 6 {
 		copy(config.ServerMAC[:], serverMAC[:6])
 	}
-	config.ServerIP = IPToUint32(serverIP)
+	config.ServerIP = IPToMapU32(serverIP)
 	config.InterfaceIndex = uint32(ifIndex)
 
 	var key uint32 = 0
@@ -669,6 +669,19 @@ func IPToUint32(ip net.IP) uint32 {
 		return 0
 	}
 	return binary.BigEndian.Uint32(ip)
+}
+
+// IPToMapU32 converts a net.IP to the uint32 that has to be stored in an eBPF map struct so that
+// the kernel program, which copies the field straight into packet headers (yiaddr, option data)
+// or compares it with header fields, sees the address bytes in network order in memory.
+// (IPToUint32 yields the address as a big-endian number; marshalled on a little-endian host
+// that number has its bytes reversed.)
+func IPToMapU32(ip net.IP) uint32 {
+	ip = ip.To4()
+	if ip == nil {
+		return 0
+	}
+	return binary.NativeEndian.Uint32(ip)
 }
 
 // Uint32ToIP converts a uint32 (network byte order) to net.IP
